@@ -15,6 +15,40 @@ type ChanObj struct {
 	sendq  []*waiter
 	recvq  []*waiter
 	tag    string // "ctxdone", "tick" ... for native channels
+	// race detection: clocks of the buffered messages, of past receives (capacity edge), of the close
+	bufVC   []VC
+	recvVCs []VC
+	nSent   int
+	closeVC VC
+}
+
+// raceSent: goroutine s (nil: the environment) completes a send on c as the n-th send; msgVC is
+// what the message carries.
+func (m *Machine) raceSendVC(c *ChanObj, s *Goroutine) VC {
+	if !m.race.on {
+		return nil
+	}
+	// the (n-cap)-th receive happens before the n-th send completes
+	if k := c.nSent - c.cap; c.cap > 0 && k >= 0 && k < len(c.recvVCs) {
+		m.vcAcquire(s, c.recvVCs[k])
+	}
+	c.nSent++
+	v := vcCopy(m.vcOf(s))
+	m.vcTick(s)
+	return v
+}
+
+func (m *Machine) raceRecvVC(c *ChanObj, r *Goroutine, msg VC) {
+	if !m.race.on {
+		return
+	}
+	m.vcAcquire(r, msg)
+	if r != nil {
+		c.recvVCs = append(c.recvVCs, vcCopy(m.vcOf(r)))
+		m.vcTick(r)
+	} else {
+		c.recvVCs = append(c.recvVCs, nil)
+	}
 }
 
 type waiter struct {
@@ -165,12 +199,23 @@ func (m *Machine) trySend(c *ChanObj, v Value) bool {
 		var w *waiter
 		w, c.recvq = firstLive(c.recvq)
 		if w != nil {
+			if m.race.on {
+				s := m.race.actor
+				before := vcCopy(m.vcOf(w.g))
+				m.raceRecvVC(c, w.g, m.raceSendVC(c, s))
+				if c.cap == 0 {
+					m.vcAcquire(s, before) // rendezvous: the receive happens before the send completes
+				}
+			}
 			m.complete(w, v, true)
 			return true
 		}
 	}
 	if len(c.buf) < c.cap {
 		c.buf = append(c.buf, v)
+		if m.race.on {
+			c.bufVC = append(c.bufVC, m.raceSendVC(c, m.race.actor))
+		}
 		return true
 	}
 	return false
@@ -187,10 +232,17 @@ func (m *Machine) tryRecv(c *ChanObj, elem types.Type) (Value, bool, bool) {
 	if len(c.buf) > 0 {
 		v := c.buf[0]
 		c.buf = c.buf[1:]
+		if m.race.on && len(c.bufVC) > 0 {
+			m.raceRecvVC(c, m.race.actor, c.bufVC[0])
+			c.bufVC = c.bufVC[1:]
+		}
 		var w *waiter
 		w, c.sendq = firstLive(c.sendq)
 		if w != nil {
 			c.buf = append(c.buf, w.val)
+			if m.race.on {
+				c.bufVC = append(c.bufVC, m.raceSendVC(c, w.g))
+			}
 			m.complete(w, nil, true)
 		}
 		return v, true, true
@@ -199,10 +251,19 @@ func (m *Machine) tryRecv(c *ChanObj, elem types.Type) (Value, bool, bool) {
 	w, c.sendq = firstLive(c.sendq)
 	if w != nil {
 		v := w.val
+		if m.race.on {
+			r := m.race.actor
+			before := vcCopy(m.vcOf(r))
+			m.raceRecvVC(c, r, m.raceSendVC(c, w.g))
+			m.vcAcquire(w.g, before)
+		}
 		m.complete(w, nil, true)
 		return v, true, true
 	}
 	if c.closed {
+		if m.race.on {
+			m.vcAcquire(m.race.actor, c.closeVC)
+		}
 		return m.zero(elem), false, true
 	}
 	return nil, false, false
@@ -262,8 +323,13 @@ func (m *Machine) chanClose(cv ChanVal) {
 		panic(goPanic{msg: "close of closed channel"})
 	}
 	c.closed = true
+	if m.race.on {
+		c.closeVC = vcCopy(m.vcOf(m.race.actor))
+		m.vcTick(m.race.actor)
+	}
 	for _, w := range c.recvq {
 		if !w.op.done {
+			m.vcAcquire(w.g, c.closeVC)
 			var elem types.Type
 			switch in := w.op.instr.(type) {
 			case *ssa.UnOp:
@@ -369,11 +435,15 @@ func (m *Machine) mutexLock(g *Goroutine, mu *MutexObj, read bool) stepStatus {
 		if mu.holder == nil {
 			mu.readers++
 			g.waitMu = nil
+			m.vcAcquire(g, mu.vc)
 			return stNext
 		}
 	} else if mu.holder == nil && mu.readers == 0 {
 		mu.holder = g
 		g.waitMu = nil
+		if m.race.on {
+			m.vcAcquire(g, vcJoin(mu.vc, mu.rvc))
+		}
 		g.locks = append(g.locks, mu)
 		return stNext
 	}
@@ -391,12 +461,20 @@ func (m *Machine) mutexUnlock(g *Goroutine, mu *MutexObj, read bool) {
 			panic(goPanic{msg: "sync: RUnlock of unlocked RWMutex"})
 		}
 		mu.readers--
+		if m.race.on {
+			mu.rvc = vcJoin(mu.rvc, m.vcOf(g))
+			m.vcTick(g)
+		}
 		return
 	}
 	if mu.holder == nil {
 		panic(goPanic{msg: "sync: unlock of unlocked mutex"})
 	}
 	mu.holder = nil
+	if m.race.on {
+		mu.vc = vcCopy(m.vcOf(g))
+		m.vcTick(g)
+	}
 	for i, l := range g.locks {
 		if l == mu {
 			g.locks = append(g.locks[:i], g.locks[i+1:]...)
@@ -508,6 +586,8 @@ func (m *Machine) pendingEvents() []*timerEv {
 }
 
 func (m *Machine) fire(t *timerEv) {
+	defer func(a *Goroutine) { m.race.actor = a }(m.race.actor)
+	m.race.actor = nil // environment events carry no happens-before edge
 	t.fired++
 	m.nEvents++
 	switch t.kind {
@@ -585,13 +665,16 @@ func (m *Machine) runLoop() {
 						continue
 					}
 					g.atSched = false
+					m.race.actor = g
 					m.runPendingCommit(g)
 					continue
 				}
 				if g.panicV != nil && len(g.frames) == g.unwindDepth {
+					m.race.actor = g
 					m.unwindStep(g)
 					continue
 				}
+				m.race.actor = g
 				m.step(g)
 			}
 		}()
